@@ -50,7 +50,12 @@ import (
 
 // ---- scenario ------------------------------------------------------------------------
 
-// NUpd is one update of a notification: leaf code 0..5 (a|b / x|y|z) and value.
+// nSyncLeaf is the leaf code of meta/sync: an update of it carries the boolean V != 0. The cache takes such an
+// update like a Sync call or its opposite: the sync state follows every one it processes, in the order of the
+// notification's entries, whatever then becomes of the leaf (stale, suppressed, stored).
+const nSyncLeaf = 6
+
+// NUpd is one update of a notification: leaf code 0..5 (a|b / x|y|z), or nSyncLeaf, and value.
 type NUpd struct {
 	P int   `json:"p"`
 	V int64 `json:"v"`
@@ -117,6 +122,10 @@ func genNNoti(t *rapid.T, lat func(*rapid.T) int64) *NNoti {
 		n.TsKind = 2
 	}
 	upd := func(t *rapid.T) NUpd {
+		if rapid.IntRange(0, 7).Draw(t, "syncleaf") == 0 {
+			// the target's sync leaf written by a notification (the cache mirrors it into its sync state)
+			return NUpd{P: nSyncLeaf, V: rapid.Int64Range(0, 1).Draw(t, "v")}
+		}
 		return NUpd{P: rapid.IntRange(0, 5).Draw(t, "p"), V: rapid.Int64Range(0, 2).Draw(t, "v")}
 	}
 	switch rapid.IntRange(0, 11).Draw(t, "shape") {
@@ -301,6 +310,7 @@ type nStats struct {
 	resetAfterSync, preSyncAccepted, exportedNew, retained    bool
 	exportWithPreInWindow, exportAfterReset, staleLatencyLeaf bool
 	inSyncSample, multiWindow, suppressedInSync               bool
+	syncLeafByNotification, unsyncedMidNotification           bool
 	maxNested                                                 int
 }
 
@@ -335,6 +345,8 @@ func (s *nStats) labels(part string) []string {
 		add(s.maxNested >= 4, "nested-sequence>=4")
 	} else {
 		add(s.inSyncSample, "in-sync-sample")
+		add(s.syncLeafByNotification, "sync-leaf-written-by-a-notification")
+		add(s.unsyncedMidNotification, "notification-takes-the-target-out-of-sync-before-its-data-entries")
 		add(s.suppressedInSync, "suppressed-update-in-sync(not-measured)")
 		add(s.resetAfterSync, "reset-of-a-synced-target")
 		add(s.preSyncAccepted, "accepted-update-between-reset-and-next-sync")
@@ -423,6 +435,11 @@ func (w *nWorld) timestamp(m *nTarget, n *NNoti) int64 {
 			if n.TsKind == 2 {
 				ts--
 			}
+		} else if first == nSyncLeaf && m.sync.exists {
+			ts = m.sync.at
+			if n.TsKind == 2 {
+				ts--
+			}
 		}
 	}
 	return ts
@@ -447,8 +464,40 @@ func (w *nWorld) modelNoti(m *nTarget, ts int64, n *NNoti) {
 		return
 	}
 	accepted := false
-	for _, u := range n.Upd {
+	for i, u := range n.Upd {
 		m.submitted++
+		if u.P == nSyncLeaf {
+			val := u.V != 0
+			if !val && m.inSync && i+1 < len(n.Upd) && n.Upd[i+1].P != nSyncLeaf {
+				w.st.unsyncedMidNotification = true
+			}
+			w.st.syncLeafByNotification = true
+			m.inSync = val
+			if val {
+				m.everSynced, m.resetAfterSync = true, false
+			}
+			l := &m.sync
+			switch {
+			case !l.exists:
+				*l = nMeta{true, ts, bstr(val)}
+				m.updated++
+				accepted = true
+			case ts < l.at, ts == l.at && l.val == bstr(val):
+				m.stale++
+				w.st.stale = true
+			default:
+				same := l.val == bstr(val)
+				l.at, l.val = ts, bstr(val)
+				accepted = true
+				if same && ev {
+					m.suppressed++
+					w.st.suppressed = true
+				} else {
+					m.updated++
+				}
+			}
+			continue
+		}
 		old, ok := m.leaves[u.P]
 		switch {
 		case !ok:
@@ -486,7 +535,8 @@ func (w *nWorld) modelNoti(m *nTarget, ts int64, n *NNoti) {
 			}
 		}
 	}
-	if accepted && (!m.hasLatest || ts > m.latest) {
+	// (the latest timestamp is not taken from a notification whose first update is a metadata leaf)
+	if accepted && n.Upd[0].P != nSyncLeaf && (!m.hasLatest || ts > m.latest) {
 		m.latest, m.hasLatest = ts, true
 	}
 }
@@ -702,6 +752,10 @@ func (w *nWorld) realOp(op *NOp, ti int, ts int64) {
 	case "upd":
 		n := &pb.Notification{Timestamp: ts, Prefix: &pb.Path{Target: name}}
 		for _, u := range op.N.Upd {
+			if u.P == nSyncLeaf {
+				n.Update = append(n.Update, &pb.Update{Path: nPbPath(metadata.Path(metadata.Sync)), Val: &pb.TypedValue{Value: &pb.TypedValue_BoolVal{BoolVal: u.V != 0}}})
+				continue
+			}
 			n.Update = append(n.Update, &pb.Update{Path: nPbPath(nPath(u.P)), Val: &pb.TypedValue{Value: &pb.TypedValue_IntVal{IntVal: u.V}}})
 		}
 		for _, d := range op.N.Del {
@@ -731,6 +785,29 @@ func (w *nWorld) exec(op *NOp, ti int, nested bool) {
 			return
 		}
 		ts = w.timestamp(w.model[ti], op.N)
+		if m := w.model[ti]; w.sc.Clock != "step" || ts > w.clock || m.sync.exists && ts < m.sync.at {
+			// With a clock that moves on every reading, or inside an operation that hosts others, the reference does
+			// not know the exact timestamp a lifecycle call or a refresh gave the sync leaf, so it cannot say whether a
+			// notification for that leaf is stale (only the step clock makes that timestamp exact); and a sync leaf
+			// dated ahead of the clock makes the lifecycle calls themselves stale (the reference's lifecycle writes
+			// assume the clock is never behind what is stored). An entry older than the stored sync leaf is refused as
+			// stale AFTER the cache has taken its value for the sync state, so state and leaf disagree from then on and
+			// "in sync" has no single meaning (seen on the unchanged tree: a Reset then leaves the state set, because it
+			// only writes the leaf back when leaf and metadata differ). In all three cases the entries for that leaf are
+			// left out: what remains are sync-leaf notifications a target can meaningfully send.
+			keep := *op.N
+			keep.Upd = nil
+			for _, u := range op.N.Upd {
+				if u.P != nSyncLeaf {
+					keep.Upd = append(keep.Upd, u)
+				}
+			}
+			if len(keep.Upd) != len(op.N.Upd) {
+				c := *op
+				c.N = &keep
+				op = &c
+			}
+		}
 	}
 	judge := len(w.durs) > 0 && !nested && (op.Kind == "updmeta" || op.Kind == "reset")
 	var prev []map[nLatKey]int64
